@@ -1,4 +1,8 @@
 import AITB.Model.Num
 import AITB.Model.Proto
 import AITB.Model.Factored
+import AITB.Model.Prune
+import AITB.Model.Interp
+import AITB.Model.C12Check
 import AITB.Props.C14
+import AITB.Props.C12Defs
